@@ -291,8 +291,8 @@ def ordered_sum_vectors(values, copies, k):
 
 
 def check_constraint(constraint, norm_sums):
-    """constraint: None | ['min==', c] | ['max<=', c] | ['min>=', c]; on (weight-normalised) sums in index order,
-    which are in ascending order for every vector the ILP may return."""
+    """constraint: None | ['min==', c] | ['max<=', c] | ['min>=', c]; on the sums in bin-index order (what the caller's function receives:
+    first / last entry), which are in ascending order whenever the weights are equal or absent."""
     if constraint is None:
         return True
     kind, c = constraint
@@ -314,7 +314,7 @@ def opt_ilp(values, copies, k, weights, constraint, spec):
         ns = [Fraction(a, b) for a, b in zip(s, w)]
         if any(ns[i + 1] < ns[i] for i in range(k - 1)):
             continue
-        if not check_constraint(constraint, ns):
+        if not check_constraint(constraint, list(s)):      # the caller's constraints speak about the SUMS (in bin-index order), not the weighted sums
             continue
         v = to_minimize(spec, ns)
         if best is None or v < best:
